@@ -50,8 +50,15 @@ def main() -> int:
             res["patch_error"] = ap.stderr[-400:]
             print(json.dumps(res, indent=1))
             return 2
-        bt = sh(["/venv/bin/python", "-m", "pytest", "-q", "-p", "no:cacheprovider", "--timeout=900"], cwd=wt, env=env, timeout=1200)
-        last = bt.stdout.strip().splitlines()[-1] if bt.stdout.strip() else bt.stderr[-200:]
+        # the suite binds fixed loopback ports (6801, 1234): run it in a private network namespace so that concurrent runs cannot collide
+        cmd = "ip link set lo up 2>/dev/null; exec /venv/bin/python -m pytest -q -p no:cacheprovider --timeout=900"
+        for attempt in range(3):
+            bt = sh(["unshare", "-n", "sh", "-c", cmd], cwd=wt, env=env, timeout=1200)
+            if bt.returncode != 0 and "unshare" in (bt.stderr or "")[:200]:
+                bt = sh(["sh", "-c", cmd.split("; exec ")[1]], cwd=wt, env=env, timeout=1200)
+            last = bt.stdout.strip().splitlines()[-1] if bt.stdout.strip() else bt.stderr[-200:]
+            if "Errno 98" not in bt.stdout and "address already in use" not in bt.stdout.lower():
+                break
         res["baseline"] = last
         res["baseline_ok"] = bt.returncode == 0 and "31 passed" in last
         d1 = sh(["/venv/bin/python", str(demo)], cwd=str(src), env=env, timeout=300)
